@@ -3,5 +3,6 @@ CONSTANTS
   Dev <- KnownC09
   MaxLen = 3
   KindSet <- AllKinds
+  Shape = "gen"
 INVARIANT GenInv
 CHECK_DEADLOCK FALSE
